@@ -50,6 +50,14 @@ def instantiations(tier, seed):
                 out.append({"A": A, "boxes": bx, "part": part, "warm": k % 2 == 1})
         if len(A) * nc <= 4:
             out.append({"A": A, "boxes": ["sym"] * nc, "part": "reduce"})
+    # chains that need several rounds of the fix-point loop, in every row order (a row removed early above a row that becomes reducible later)
+    import itertools as _it
+    chain = [([1, 0, 0, 0], "a>=1"), ([0, 1, 1, 0], "b+c>=1"), ([-1, 0, 0, 1], "d>=a")]
+    for perm in _it.permutations(range(3)):
+        A = [chain[i][0] for i in perm]
+        out.append({"A": A, "boxes": [[0, 1]] * 4, "part": "reduce", "warm": False})
+    out.append({"A": [[1, 0, 0, 0], [0, 1, 1, 0], [-1, 0, 0, 1]], "boxes": [[-2, 2], [0, 1], [0, 1], "sym"], "part": "reduce", "warm": True})
+    out.append({"A": [[0, 2, 1, 0], [1, 0, 0, 0], [-1, 0, 0, 1], [0, 0, -1, 1]], "boxes": [[0, 1]] * 4, "part": "reduce", "warm": False})
     for mu in ("forced_off", "lost_solution"):
         out.append({"kind": "mutant", "mutant": mu, "A": [[-2, 1, 1], [1, 1, 0]], "boxes": [[0, 1], [0, 1], "sym"], "part": "reduce"})
     return out
